@@ -82,11 +82,15 @@ class Script:
     def conn(self, pre=b"RFB 003.008\n"):
         i = self.next_id
         self.next_id = self.next_id % 14 + 1
-        self.lines.append("conn %d %s" % (i, hx(pre)))
+        # half of the peers arrive through the listening socket (rfbProcessNewConnection), the other
+        # half on a socketpair handed to rfbNewClient (what an inetd-style application does)
+        self.lines.append("%s %d %s" % ("lconn" if self.rng.random() < 0.5 else "conn", i, hx(pre)))
         return i
 
-    def send(self, i, data, cuts=None, eof=False):
+    def send(self, i, data, cuts=None, eof=False, trickle=None):
         l = "send %d %s" % (i, hx(data))
+        if trickle:
+            l += " trickle=%d" % trickle
         if cuts:
             l += " c=" + ",".join(str(c) for c in sorted(set(cuts)))
         if eof:
@@ -118,7 +122,7 @@ def rand_cfg(rng, **over):
            "ft": rng.choice([0, 1]), "tight": rng.choice([0, 0, 1]), "xvp": rng.choice([0, 1]),
            "utf8": rng.choice([0, 1]), "sdh": rng.choice([0, 1, 2]),
            "wait": rng.choice([20000, 20000, 5000, 10000, 7000, 100, 15000]),
-           "wenc": rng.choice([0, 5, 5, 2, 6, 16, 7]), "view": rng.choice([0] * 9 + [1])}
+           "wenc": rng.choice([0, 5, 5, 2, 6, 16, 7]), "view": rng.choice([0] * 9 + [1]), "http": rng.choice([0, 0, 1])}
     cfg.update(over)
     return cfg
 
@@ -642,13 +646,58 @@ def sc_ws(rng):
                 data = ws_frame(rng, m, opcode=rng.choice([0, 1, 9, 10, 3, 15]))
             elif k < 0.93:
                 data = ws_frame(rng, m, masked=False)
-            elif k < 0.97:
+            elif k < 0.95:
                 data = ws_frame(rng, b"", opcode=8)
+            elif k < 0.97:
+                data = rng.choice(ws_malformed(rng))[1]
             else:
                 data = ws_frame(rng, b"p" * rng.choice([126, 3000]), opcode=rng.choice([9, 10, 8]))
-            s.send(i, data)
+            cuts = [rng.randrange(1, len(data)) for _ in range(rng.choice([1, 2, 4]))] if rng.random() < 0.3 and len(data) > 1 else None
+            s.send(i, data, cuts)
             if rng.random() < 0.3:
                 s.tick()
+    if rng.random() < 0.5:
+        nm, rq = rng.choice(ws_handshakes())
+        i = s.conn(rq)
+        s.send(i, ws_frame(rng, b"RFB 003.008\n"))
+    s.tick()
+    s.lines.append("end")
+    return s
+
+
+def sc_listen(rng):
+    """random on top of core_listen: floods of random size, faults at random messages, trickling peers"""
+    cfg = rand_cfg(rng, http=1)
+    s = Script(rng, cfg)
+    wait = cfg["wait"] or 20000
+    pool = valid_messages(rng, cfg)
+    for _ in range(rng.randint(3, 8)):
+        k = rng.random()
+        if k < 0.2:
+            s.lines.append("lflood %d" % rng.randint(4, 60))
+            s.tag("flood")
+        elif k < 0.5:
+            i = s.handshake(rng.choice([8, 3]))
+            s.lines.append("fault %d %s" % (i, rng.choice(["rd_eintr", "rd_reset", "sel_err", "wr_eintr", "wr_zero", "wsel_err", "wsel_eintr"])))
+            s.tag("fault")
+            nm, m = rng.choice(pool)
+            s.send(i, m[:rng.randrange(1, len(m) + 1)])
+            s.send(i, m_key(1, 3))
+        elif k < 0.8:
+            i = s.handshake()
+            nm, m = rng.choice(pool)
+            data = m if len(m) < 60 else m[:60]
+            if rng.random() < 0.3:
+                data = data[:rng.randrange(1, len(data) + 1)]
+            s.tag("trickle")
+            s.send(i, data, trickle=rng.choice([wait - 1, wait // 2, 1]))
+        else:
+            rq = rng.choice([b"GET /index.vnc HTTP/1.0\r\n\r\n", b"GET /" + rbytes(rng, rng.randint(0, 300)) + b"\r\n\r\n",
+                             rbytes(rng, rng.randint(1, 200)), b"GET /a.txt HTTP/1.1\r\n" + b"X: y\r\n" * rng.randint(0, 400) + b"\r\n"])
+            s.tag("http")
+            s.lines.append("http %s%s" % (hx(rq), " eof" if rng.random() < 0.5 else ""))
+        if rng.random() < 0.3:
+            s.tick()
     s.tick()
     s.lines.append("end")
     return s
@@ -824,6 +873,202 @@ def core_ws(cfg):
     return s
 
 
+def ws_raw(b1, lenfield, mask=b"\x01\x02\x03\x04", payload=b""):
+    """a frame from raw header fields (lets the length encoding be wrong on purpose)"""
+    return u8(b1) + lenfield + (mask or b"") + payload
+
+
+def ws_malformed(rng):
+    """complete but malformed frames / header encodings (decoder itself: C09)"""
+    mk = lambda p, m=b"\x01\x02\x03\x04": bytes(b ^ m[k & 3] for k, b in enumerate(p))
+    key = m_key(1, 0x41)
+    return [
+        ("ws-len126-small", ws_raw(0x82, u8(0x80 | 126) + u16(8), payload=mk(key))),          # non-minimal 16-bit length
+        ("ws-len127-small", ws_raw(0x82, u8(0x80 | 127) + struct.pack(">Q", 8), payload=mk(key))),
+        ("ws-len127-huge", ws_raw(0x82, u8(0x80 | 127) + struct.pack(">Q", 1 << 40))),
+        ("ws-len127-topbit", ws_raw(0x82, u8(0x80 | 127) + struct.pack(">Q", (1 << 63) | 5))),
+        ("ws-len127-max", ws_raw(0x82, u8(0x80 | 127) + struct.pack(">Q", (1 << 64) - 1))),
+        ("ws-len126-max", ws_raw(0x82, u8(0x80 | 126) + u16(65535), payload=mk(b"z" * 100))),
+        ("ws-unmasked", ws_raw(0x82, u8(8), mask=None, payload=key)),
+        ("ws-rsv", ws_raw(0xF2, u8(0x80 | 8), payload=mk(key))),
+        ("ws-cont-first", ws_raw(0x80, u8(0x80 | 8), payload=mk(key))),                      # continuation without start
+        ("ws-frag", ws_raw(0x02, u8(0x80 | 4), payload=mk(key[:4])) + ws_raw(0x80, u8(0x80 | 4), payload=mk(key[4:]))),
+        ("ws-frag-ctl", ws_raw(0x02, u8(0x80 | 4), payload=mk(key[:4])) + ws_raw(0x89, u8(0x80 | 2), payload=mk(b"hi")) +
+         ws_raw(0x80, u8(0x80 | 4), payload=mk(key[4:]))),
+        ("ws-ctl-nofin", ws_raw(0x09, u8(0x80 | 2), payload=mk(b"hi"))),
+        ("ws-ping", ws_raw(0x89, u8(0x80 | 125), payload=mk(b"p" * 125))),
+        ("ws-ping126", ws_raw(0x89, u8(0x80 | 126) + u16(126), payload=mk(b"p" * 126))),
+        ("ws-close-payload", ws_raw(0x88, u8(0x80 | 2), payload=mk(u16(1000)))),
+        ("ws-text", ws_raw(0x81, u8(0x80 | 8), payload=mk(key))),
+        ("ws-zero", ws_raw(0x82, u8(0x80))),
+        ("ws-reserved-op", ws_raw(0x83, u8(0x80 | 8), payload=mk(key))),
+    ]
+
+
+def ws_handshakes():
+    """requests for webSocketsHandshake: over-long (limit 4096 -1/0/+1), missing fields, Hixie keys"""
+    def req(lines):
+        return b"GET / HTTP/1.1\r\n" + b"".join(l + b"\r\n" for l in lines) + b"\r\n"
+    base = [b"Host: h", b"Origin: http://h", b"Sec-WebSocket-Key: dGhlIHNhbXBsZSBub25jZQ==", b"Sec-WebSocket-Version: 13"]
+    out = [("ws-hs-nokey", req([base[0], base[1], base[3]])),
+           ("ws-hs-noversion", req(base[:3])),
+           ("ws-hs-nohost", req(base[1:])),
+           ("ws-hs-noorigin", req([base[0], base[2], base[3]])),
+           ("ws-hs-secorigin", req([base[0], b"Sec-WebSocket-Origin: http://h", base[2], base[3]])),
+           ("ws-hs-base64", req(base + [b"Sec-WebSocket-Protocol: base64"])),
+           ("ws-hs-hixie", req([base[0], base[1], b"Sec-WebSocket-Key1: 4 @1  46546xW%0l 1 5", b"Sec-WebSocket-Key2: 12998 5 Y3 1  .P00"]) + b"12345678"),
+           ("ws-hs-two-gets", b"GET /a HTTP/1.1\r\n" + req(base)),
+           ("ws-hs-stall", b"GET / HTTP/1.1\r\nHost: h\r\nSec-WebSocket-K"),
+           ("ws-hs-shortget", b"GET /\r\n\r\n"),
+           ("ws-hs-lf-only", b"GET / HTTP/1.1\nHost: h\n\n")]
+    for total in (4094, 4095, 4096, 4097, 5000):
+        r0 = req(base + [b"X-Pad: "])
+        pad = total - len(r0)
+        out.append(("ws-hs-long%d" % total, req(base + [b"X-Pad: " + b"p" * pad])))
+    return out
+
+
+def core_listen(cfg):
+    """peers arriving through the listening socket (rfbProcessNewConnection): normal, hang-up before
+    the version string, every webSocketsCheck arm, a connection flood against the fd quota, then a
+    normal client again; injected read/select/write errors; the EBADF arm after a failed reply;
+    slow-trickle peers; HTTP smoke"""
+    import random
+    rng = random.Random(4008)
+    s = Script(rng, dict(cfg, http=1))
+    W, H = cfg["w"], cfg["h"]
+    wait = cfg["wait"] or 20000
+    def lconn(pre, eof=False):
+        i = s.next_id
+        s.next_id = s.next_id % 14 + 1
+        s.lines.append("lconn %d %s%s" % (i, hx(pre), " eof" if eof else ""))
+        return i
+    def hs():
+        i = lconn(b"RFB 003.008\n")
+        if cfg["pw"]:
+            s.send(i, u8(2)); s.lines.append("auth %d ok" % i)
+        else:
+            s.send(i, u8(1))
+        s.send(i, u8(1))
+        return i
+    for pre in (b"", b"RFB 003.008\n", b"ABCD", b"GET garbage\r\n\r\n", b"\x16\x03\x01\x00\x05hello", b"\x80\x80\x01\x03", b"RFB "):
+        s.tag("core-listen")
+        i = lconn(pre)
+        s.send(i, b"RFB 003.008\n" if pre == b"" else u8(1))
+        lconn(pre, eof=True)
+    s.lines.append("lflood 24")
+    s.tick()
+    i = hs()
+    s.send(i, m_key(1, 0x41))
+    s.lines.append("lflood 40")
+    i = hs()
+    # injected errors of read / select / write on the server side
+    for kind, msg in (("rd_eintr", m_key(1, 1)), ("sel_err", m_key(1, 1)[:4]), ("rd_reset", m_key(1, 1)),
+                      ("wr_eintr", m_xvp(2, 1)), ("wr_zero", m_xvp(2, 1)), ("sel_err", m_cut(9, b"abc")),
+                      ("rd_eintr", m_cut(3, b"abc") + m_chat(2, b"hi"))):
+        i = hs()
+        s.tag("core-fault")
+        s.lines.append("fault %d %s" % (i, kind))
+        s.send(i, msg)
+        s.send(i, m_key(0, 2))
+    # the reply to the first encoding cannot be written: the client is closed, the loop goes on and the
+    # next rfbReadExact runs on sock == -1 (EBADF arm)
+    if cfg["xvp"]:
+        for mode in ("eof", "stop"):
+            i = hs()
+            if mode == "stop":
+                s.lines.append("stopread %d" % i)
+            s.send(i, m_setenc([E_XVP, E_RAW, E_APP, E_RAW]), eof=(mode == "eof"))
+    # the select of the write path fails / is interrupted while the peer does not read
+    for kind in ("wsel_err", "wsel_eintr"):
+        i = hs()
+        s.lines.append("stopread %d" % i)
+        s.lines.append("fault %d %s" % (i, kind))
+        s.send(i, m_xvp(2, 1))
+    # handshake of a WebSocket client that hangs up: before / inside the request, before the Hixie key
+    # bytes, before the 101 response can be written
+    for pre in (WS_REQ[:20], WS_REQ[:-2], WS_REQ, ws_handshakes()[6][1][:-8], ws_handshakes()[6][1]):
+        lconn(pre, eof=True)
+    i = lconn(ws_handshakes()[6][1][:-8])          # Hixie keys, the 8 key bytes never arrive (timeout)
+    # a pending copy is turned into pixel data when the client withdraws CopyRect
+    i = hs()
+    s.send(i, m_setenc([E_RAW, E_COPY]) + m_fbur(0, 0, 0, W, H))
+    s.tick()
+    s.lines.append("app copy 8 2 %d %d 2 0" % (W - 4, H - 1))
+    s.send(i, m_setenc([E_RAW]) + m_fbur(1, 0, 0, W, H))
+    s.tick()
+    # extended clipboard Request / Peek answered from published clipboard data
+    if cfg["utf8"]:
+        i = hs()
+        s.send(i, m_setenc([E_RAW, E_EXTCLIP]))
+        s.send(i, m_cut((-8) & 0xFFFFFFFF, u32((1 << 24) | 1) + u32(1 << 20)))   # caps: text only
+        s.lines.append("app cututf8 300")
+        for fl in (1 << 25, 1 << 26):
+            s.send(i, m_cut((-4) & 0xFFFFFFFF, u32(fl | 1)))
+        s.send(i, m_cut((-8) & 0xFFFFFFFF, u32((1 << 24) | (1 << 27) | (1 << 28) | 1) + u32(1 << 20)))   # caps: text, notify, provide
+        for fl in (1 << 25, 1 << 26):
+            s.send(i, m_cut((-4) & 0xFFFFFFFF, u32(fl | 1)))
+    # slow trickle: one byte every wait-1 ms
+    for msg in (m_key(1, 0x41), m_cut(5, b"hel"), m_key(1, 1) + m_ptr(0, 1, 1) + m_fbur(1, 0, 0, W, H), m_setenc([E_RAW, E_APP], 5),
+                m_sds(W, H, 1, screens(1, rng)) + m_chat(3, b"abc")):
+        i = hs()
+        s.tag("core-trickle")
+        s.send(i, msg, trickle=wait - 1)
+        s.send(i, m_key(0, 2))
+    i = lconn(b"")
+    s.send(i, b"RFB 003.008\n" + u8(2 if cfg["pw"] else 1), trickle=wait - 1)
+    # HTTP listener smoke
+    for rq in (b"GET /index.vnc HTTP/1.0\r\n\r\n", b"GET / HTTP/1.0\r\n\r\n", b"GET /a.txt HTTP/1.1\r\nHost: h\r\n\r\n",
+               b"GET /../../etc/passwd HTTP/1.0\r\n\r\n", b"GET /nonexistent HTTP/1.0\r\n\r\n", b"POST / HTTP/1.0\r\n\r\n",
+               b"CONNECT vnc HTTP/1.0\r\n\r\n", b"CONNECT h:5900 HTTP/1.0\r\n\r\n", b"GET " + b"/" + b"A" * 2000 + b" HTTP/1.0\r\n\r\n",
+               b"G", b"GET /index.vnc", b"\r\n\r\n", b"GET  HTTP/1.0\r\n\r\n", b"GET /index.vnc?user=x&y=%zz HTTP/1.0\r\n\r\n",
+               b"\x00" * 40, b"GET /" + b"B" * 40000):
+        s.tag("core-http")
+        s.lines.append("http %s%s" % (hx(rq), " eof" if rng.random() < 0.5 else ""))
+    s.tick()
+    s.lines.append("end")
+    return s
+
+
+def core_ws2(cfg):
+    """WebSocket: handshake variants and malformed frame classes, whole and split at every header byte"""
+    import random
+    rng = random.Random(4009)
+    s = Script(rng, dict(cfg, pw=0, tight=0))
+    for nm, rq in ws_handshakes():
+        s.tag("core-" + nm[:9])
+        i = s.conn(rq)
+        s.send(i, ws_frame(rng, b"RFB 003.008\n"))
+    for nm, fr in ws_malformed(rng):
+        for cuts in (None, list(range(1, min(len(fr), 15)))):
+            i = s.conn(WS_REQ)
+            s.send(i, ws_frame(rng, b"RFB 003.008\n") + ws_frame(rng, u8(1)) + ws_frame(rng, u8(1)))
+            s.tag("core-" + nm)
+            s.send(i, fr + ws_frame(rng, m_key(0, 2)), cuts)
+    # the peer hangs up / the read fails inside a frame header, inside the extended length, inside the payload
+    big = ws_frame(rng, b"k" * 300)
+    for part in (big[:1], big[:3], big[:6], big[:40]):
+        i = s.conn(WS_REQ)
+        s.send(i, ws_frame(rng, b"RFB 003.008\n"))
+        s.send(i, part, eof=True)
+        i = s.conn(WS_REQ)
+        s.send(i, ws_frame(rng, b"RFB 003.008\n"))
+        s.send(i, part)
+        s.lines.append("fault %d rd_reset" % i)
+        s.send(i, big[len(part):len(part) + 2])
+    # a large server->client message over WebSocket (rfbWriteExact chunking at UPDATE_BUF_SIZE),
+    # also to a WebSocket client that has stopped reading (a chunk write fails)
+    i = s.conn(WS_REQ)
+    s.send(i, ws_frame(rng, b"RFB 003.008\n") + ws_frame(rng, u8(1)) + ws_frame(rng, u8(1)))
+    j = s.conn(WS_REQ)
+    s.send(j, ws_frame(rng, b"RFB 003.008\n") + ws_frame(rng, u8(1)) + ws_frame(rng, u8(1)))
+    s.lines.append("stopread %d" % j)
+    s.lines.append("app cuttext 100000")
+    s.tick()
+    s.lines.append("end")
+    return s
+
+
 def core_scripts():
     out = []
     for cfg in CORE_CFGS:
@@ -832,11 +1077,14 @@ def core_scripts():
         out.append(("core_guards", core_guards(cfg)))
         out.append(("core_trunc", core_trunc(cfg)))
     out.append(("core_ws", core_ws(CORE_CFGS[0])))
+    out.append(("core_ws2", core_ws2(CORE_CFGS[0])))
+    for cfg in CORE_CFGS:
+        out.append(("core_listen", core_listen(cfg)))
     return out
 
 
 SCENARIOS = [(sc_mix, 30), (sc_fields, 30), (sc_trunc, 12), (sc_preauth, 12), (sc_pixfmt, 12), (sc_scale, 8), (sc_block, 10),
-             (sc_ft, 10), (sc_clip, 8), (sc_unknown, 4), (sc_copyrects, 3), (sc_ws, 4)]
+             (sc_ft, 10), (sc_clip, 8), (sc_unknown, 4), (sc_copyrects, 3), (sc_ws, 6), (sc_listen, 8)]
 
 
 def gen_scripts(rng, n):
@@ -895,10 +1143,17 @@ def oracle(script, cfg, impl, solo):
             return "more than ceil(wait/5000) write waits: %s" % ob
         if ww and rw:
             return "read wait and write wait on the same connection in one operation: %s" % ob
-        if (ww or (rw and not op.startswith("conn"))) and not closed:
+        if (ww or (rw and not op.startswith(("conn", "lconn")))) and not closed:
             return "peer went silent for a full wait but the connection stays open: %s" % ob
         call = int(raw.get("call", 0))
-        if call > max(wait, kw * 5000, 100):
+        tr = [t for t in op.split() if t.startswith("trickle=")]
+        if tr:
+            # slow-trickle peer: the stated bound is one wait per byte (Props: slow_trickle_bound,
+            # trickle_stream_bound); it must still end with at most one full wait
+            nbytes = len(op.split()[2]) // 2
+            if vt > nbytes * wait:
+                return "trickling peer kept the server busy %d ms > %d bytes x wait %d: %s" % (vt, nbytes, wait, ob)
+        elif call > max(wait, kw * 5000, 100):
             return "one library call blocked %d ms (virtual) > client wait %d: %s" % (call, wait, ob)
         amax = int(raw.get("amax", 0))
         if amax > abound:
@@ -906,6 +1161,14 @@ def oracle(script, cfg, impl, solo):
         # update sending (not modelled): encoder state is sized by the screen, never by the request
         if int(raw.get("umax", 0)) > (4 << 20):
             return "allocation of %s bytes while sending an update (screens here are at most 128x96)" % raw.get("umax")
+    for l in impl:
+        if l.startswith("#flood"):
+            d = parse_kv(l)
+            want, acc, ref = int(d["want"]), int(d["accepted"]), int(d["refused"])
+            if acc + ref != want:
+                return "connection flood: %d connects, %d accepted + %d refused (some neither served nor refused)" % (want, acc, ref)
+            if ref == 0 or acc == 0:
+                return "connection flood with the fd limit set for half of %d connects: accepted %d, refused %d (fd quota not enforced)" % (want, acc, ref)
     wi = [l for l in impl if l.startswith("#wit")]
     ws = [l for l in solo if l.startswith("#wit")]
     if wi != ws:
